@@ -39,7 +39,7 @@ pub fn gen(tier: &str, seed: u64, emit: &mut dyn FnMut(String)) {
         emit(format!("ALLOC {} {}", hex(&warm), hex(&m.bytes())));
     }
     // hostile streams of growing length over a small PID universe: retained memory must level off
-    for i in 0..(if big { 60 } else { 6 }) {
+    for i in 0..(if big { 24 } else { 6 }) {
         let npk = if big { 20000 + 4000 * i } else { 3000 + 1500 * i } as usize;
         let pids = pick_pids(&mut rng, 24);
         let mut b = Vec::with_capacity(npk * 188);
@@ -55,7 +55,7 @@ pub fn gen(tier: &str, seed: u64, emit: &mut dyn FnMut(String)) {
     // section-layer stress on the PAT PID and on a PMT PID created by a valid PAT: (a) an endless run of multi-packet section
     // starts that never complete, each with another version; (b) one long section start followed by an endless run of
     // continuation packets; (c) a mix with sections that do complete.  Retained memory must level off in all of them.
-    for i in 0..(if big { 36 } else { 6 }) {
+    for i in 0..(if big { 18 } else { 6 }) {
         let npk = if big { 20000 + 2000 * i } else { 2500 + 500 * i } as usize;
         let on_pmt = i % 2 == 1;
         let pmt_pid = 0x30 + i as u16;
